@@ -198,6 +198,15 @@ func (g *Gen) external(f *Frame, fn *ssa.Function, args []Arg, ins ssa.Instructi
 	if c := g.contracts["ext."+name]; c != nil {
 		return g.applyContract(f, c, c.Params, args, sig, ins, fn.Name())
 	}
+	// printf-style calls: a format that is not a compile-time constant must be free of '%' (otherwise data is
+	// interpreted as formatting directives and the reported text is no longer the text that was to be reported)
+	if k, isFmt := map[string]int{"fmt.Errorf": 0, "fmt.Sprintf": 0, "fmt.Printf": 0, "fmt.Fprintf": 1, "fmt.Sscanf": 1, "log.Printf": 0, "log.Fatalf": 0}[name]; isFmt && k < len(args) {
+		if ci, ok := ins.(ssa.CallInstruction); ok && k < len(ci.Common().Args) {
+			if _, isConst := ci.Common().Args[k].(*ssa.Const); !isConst {
+				g.safety(f, fmt.Sprintf("(not (str.contains %s \"%%\"))", args[k].t.S), "format-string", ins.Pos())
+			}
+		}
+	}
 	a := func(k int) string { return args[k].t.S }
 	one := func(s string) []Term {
 		t := sig.Results().At(0).Type()
